@@ -166,7 +166,10 @@ def check_property(pid, tier, seed, write_evidence=True):
     if P.get("harness") and need_harness:
         from checklib.standin import run_standin
 
-        hres = run_standin(pid, P["harness"], tier, seed, thorough=(tier == "thorough"))
+        # a scheduler function that is undecided (contract cannot bind / unsupported) leaves the stand-in as the only line
+        # of defence: it then also runs its escalation phase
+        esc = any("scheduler" in u[0] or "digraph_sched" in u[0] for u, _ in errors)
+        hres = run_standin(pid, P["harness"], tier, seed, thorough=(tier == "thorough"), escalate=esc)
         standins.append(hres["summary"])
     elif P.get("harness") and tier == "thorough":
         from checklib.standin import run_standin
